@@ -2120,6 +2120,19 @@ def c19_cases(tier, seed):
                         timeout=0 if mode == "vi" else rng.choice(["none", 0]), reads=1)
         c.meta.update({"printers": nthreads, "prints": prints, "linger": 1, "paste": rng.choice([0, 1]), "no_model": 1})
         cases.append(c)
+    # a message far larger than the terminal takes at once, while the terminal is not being read and resizes interrupt the
+    # write that is blocked on it: every byte still arrives exactly once
+    for _ in range(max(2, n // 60)):
+        mode = rng.choice(["emacs", "vi"])
+        cmds = gen_c19(rng, mode)[:3] + [Cmd(["F12"], "noop"), Cmd(["Enter"], "enter")]
+        cmds = [c for c in cmds if c.keys != ["C-z"]]
+        chunks = [b"".join(p_tty.key_bytes(k) for k in cmd.keys) for cmd in cmds]
+        big = "<0:0:big>" + "".join("[%05d]" % i for i in range(rng.choice([4000, 6000]))) + "\n"
+        c = script_case(cmds, mode=mode, chunks=chunks, cols=80, prompt="> ", timeout=0 if mode == "vi" else "none", reads=1)
+        k = max(0, len(cmds) - 3)
+        c.meta.update({"printers": 1, "prints": {}, "no_model": 1, "sync_keys": 1,
+                       "bursts": {k: [(0, big)]}, "blocked_resizes": {k: [70, 60, 50, 80]}})
+        cases.append(c)
     # bursts: several threads are told to print at once, without waiting for one another (the editor may find
     # more than one wake-up pending); which message comes first is not determined, the oracle does not care
     for _ in range(n // 3):
